@@ -15,6 +15,7 @@ import (
 	"net/url"
 	"os"
 	"path/filepath"
+	"strings"
 	"sync"
 	"sync/atomic"
 	"time"
@@ -181,6 +182,13 @@ func (g *c19Rig) stopServer() {
 
 func (g *c19Rig) startServer() error {
 	done, timeout, err := g.c.StartServer()
+	for try := 0; err != nil && try < 20 && strings.Contains(err.Error(), "address already in use"); try++ {
+		// The server's ports are ordinary ephemeral ports: while it is down some other process'
+		// outgoing connection can sit on one of them for a moment.  Environment, not the syncer.
+		g.r.Count("server_start_retried_because_port_was_taken_meanwhile", 1)
+		time.Sleep(500 * time.Millisecond)
+		done, timeout, err = g.c.StartServer()
+	}
 	if err != nil {
 		return err
 	}
